@@ -107,7 +107,7 @@ def _date(  # noqa: PLR0912 PLR0911
         else:
             try:
                 dat = parser.parse(dat)
-            except (parser.ParserError, OverflowError):
+            except (parser.ParserError, ArithmeticError):
                 # Input is returned unchanged. This is consistent
                 # with the reference implementation.
                 return str(dat)
